@@ -41,6 +41,36 @@ PROPS = {
         ],
     },
 }
+PROPS["C18"] = {
+    "module": "MsiProofs.Props.C18",
+    "gen": ["timestamp"],
+    "profiles": ["dev"],
+    "theorems": [
+        "MsiProofs.C18.constants",
+        "MsiProofs.C18.toSystemTime_total",
+        "MsiProofs.C18.fromSystemTime_nonneg",
+        "MsiProofs.C18.fromSystemTime_neg",
+        "MsiProofs.C18.within_resolution",
+        "MsiProofs.C18.ticks_fixed",
+        "MsiProofs.C18.set_get_idempotent",
+        "MsiProofs.C18.monotone",
+        "MsiProofs.C18.toSystemTime_monotone",
+        "MsiProofs.C18.saturates_low",
+        "MsiProofs.C18.saturates_high",
+    ],
+    "level_text": "Lean theorems (linear integer arithmetic, for every Int nanosecond offset / every u64 tick) over the model of "
+                  "timestamp_from_system_time / system_time_from_timestamp with saturating u64 arithmetic: round trip within 100 ns on "
+                  "[1601, tick maximum], ticks are fixed points (set(get) idempotent), monotone, saturation at both ends, no panic and no "
+                  "UNIX_EPOCH fallback; constants regenerated from timestamp.rs; tie: boundary + random times through SummaryInfo in memory and through save/reopen.",
+    "level_note": "Trusted: Lean kernel; the model of SystemTime as signed nanoseconds with i64 seconds (64-bit Linux); translator for the four constants; "
+                  "harness. Through-save part relies on the FILETIME being 8 little-endian bytes (compared by the harness, theorem in C10).",
+    "technique": "Lean 4 proof (omega over regenerated constants) + differential boundary/random correspondence",
+    "rule": "every nanosecond within +-250 ns of 1601-01-01, 1970-01-01, the 64-bit tick maximum and neighbours; whole-second boundaries around the epoch; "
+            "extremes of the i64-second SystemTime range; seeded random times (80% uniform ticks in range + sub-tick nanos, 10% within 4 s of the epoch, "
+            "10% anywhere in the i64 range); a seeded subset through save/reopen. non-trivial = distinct in-range ticks exercised",
+    "trusted_base": ["model MsiModel/Timestamp.lean (hand-written)", "Gen/Timestamp.lean regenerated from src/internal/timestamp.rs"],
+    "assumptions": ["SystemTime has i64 seconds and checked_add/checked_sub behave as on 64-bit Linux"],
+}
 
 # reasons for properties not claimed (yet); everything else defaults to "not yet built"
 NOT_CLAIMED = {}
